@@ -132,8 +132,16 @@ def _generated_deck():
 
     out = io.BytesIO()
     with zipfile.ZipFile(io.BytesIO(buf.getvalue())) as zin, zipfile.ZipFile(out, "w", zipfile.ZIP_DEFLATED) as zout:
+        rels1 = zin.read("ppt/charts/_rels/chart1.xml.rels")
+        import re as _re
+
+        shared_target = _re.search(rb'Target="([^"]*embeddings/[^"]*)"', rels1).group(1)
         for info in zin.infolist():
-            zout.writestr(info, jpg.getvalue() if info.filename == name2 else zin.read(info.filename))
+            data_ = jpg.getvalue() if info.filename == name2 else zin.read(info.filename)
+            if info.filename == "ppt/charts/_rels/chart2.xml.rels":
+                # two charts sharing one embedded workbook (legal OPC; left by producers that duplicate a chart)
+                data_ = _re.sub(rb'Target="[^"]*embeddings/[^"]*"', b'Target="' + shared_target + b'"', data_)
+            zout.writestr(info.filename, data_)
     return out.getvalue()
 
 
@@ -166,6 +174,8 @@ def _is_proxy(o):
     m = getattr(t, "__module__", "") or ""
     if not m.startswith("pptx.") or isinstance(o, (type, str, int, float, bytes, tuple)):
         return False
+    if t.__name__ == "ChartWorkbook" and m == "pptx.parts.chart":
+        return True  # the documented way to the chart's embedded workbook: chart.part.chart_workbook(.xlsx_part)
     if m.startswith(("pptx.oxml", "pptx.opc", "pptx.enum", "pptx.parts", "pptx.util", "pptx.exc")) or m in ("pptx.package", "pptx.media"):
         return False
     return not hasattr(o, "tag")
@@ -276,6 +286,11 @@ def _walk(prs, visit, skip=(), budget=4000):
                 todo.append(v)
             elif isinstance(v, (list, tuple)):
                 todo.extend(x for x in v[:40] if _is_proxy(x))
+        if t.__name__ == "Chart" and not (("Chart", "part.chart_workbook") in skip):
+            try:
+                todo.append(o.part.chart_workbook)
+            except Exception:
+                pass
         if (inspect.getattr_static(t, "__iter__", None) is not None or (inspect.getattr_static(t, "__getitem__", None) is not None and inspect.getattr_static(t, "__len__", None) is not None)) \
                 and not (t.__name__, "__iter__") in skip:
             try:
